@@ -1,4 +1,5 @@
 """C02 - no request, however malformed, crashes the service or disturbs other requests."""
+import zlib
 import json
 import random
 import struct
@@ -215,7 +216,8 @@ def worker(args):
                 break
             pn = rnd.choice(["http", "scgi", "fastcgi"])
             r = c01.gen_req(rnd, rnd.choice([b"/echo", b"/aecho", b"/upload", b"/rawup"]), ci)
-            r.token = b"M%d-%d" % (windex, ci)
+            # self-checking and self-delimiting: a mutated or cut token must not turn into the token of another request
+            r.token = b"M%d-%d-%08xz" % (windex, ci, zlib.crc32(b"%d-%d" % (windex, ci)))
             must = False
             if rnd.random() < 0.45:
                 data, cls, must = {"http": http_special, "scgi": scgi_special, "fastcgi": fcgi_special}[pn](rnd, r)
@@ -309,12 +311,17 @@ def worker(args):
             if e.get("ev") == "on_error" and t is not None:
                 errs[t] = errs.get(t, 0) + 1
         # content-filter applications are entered twice by design (headers, then content): allow 2 for /upload, /rawup
+        # only tokens exactly as sent identify a request: a mutation that cuts the token ("t=M4711" -> "t=M", "t=") makes
+        # different requests share what is left of it
         for t, n in mains.items():
+            if t not in sent_tokens:
+                cnt("calls_with_a_token_cut_by_the_mutation", n)
+                continue
             if t.startswith("M") and n > 2 and sent_tokens.get(t, ("", ""))[1] != "keepalive-then-garbage" and "duplicate" not in sent_tokens.get(t, ("", ""))[1] and "repeat-all" not in sent_tokens.get(t, ("", ""))[1]:
                 res["viol"].append({"key": "c02:handler-called-more-than-once", "detail": "token %s: %d calls (%r)" % (t, n, sent_tokens.get(t)), "replay": None})
                 break
         for t, n in errs.items():
-            if n > 1:
+            if n > 1 and t in sent_tokens:
                 res["viol"].append({"key": "c02:upload-error-notified-more-than-once", "detail": "token %s: %d (%r)" % (t, n, sent_tokens.get(t)), "replay": None})
                 break
         cnt("handler_calls", sum(mains.values()))
